@@ -294,6 +294,32 @@ static int g_check_stmt_depth = 0;
 #define MAX_CHECK_STMT_DEPTH 2000
 
 /* Check if an AST node contains calls to extern functions */
+/* Can control reach the end of this statement?  Deliberately conservative: only the forms that
+ * certainly fall through are reported (a conditional without else, or a plain declaration,
+ * assignment, print or assert in last position); loops, match, calls (which may never
+ * return) and unsafe blocks are given the benefit of the doubt. */
+static bool stmt_may_fall_through(ASTNode *stmt) {
+    if (!stmt) return true;
+    switch (stmt->type) {
+        case AST_RETURN:
+            return false;
+        case AST_BLOCK:
+            if (stmt->as.block.count == 0) return true;
+            return stmt_may_fall_through(stmt->as.block.statements[stmt->as.block.count - 1]);
+        case AST_IF:
+            if (!stmt->as.if_stmt.else_branch) return true;
+            return stmt_may_fall_through(stmt->as.if_stmt.then_branch) ||
+                   stmt_may_fall_through(stmt->as.if_stmt.else_branch);
+        case AST_LET:
+        case AST_SET:
+        case AST_PRINT:
+        case AST_ASSERT:
+            return true;
+        default:
+            return false;
+    }
+}
+
 static bool contains_extern_calls(ASTNode *node, Environment *env) {
     if (!node) return false;
     
@@ -5583,6 +5609,14 @@ sdef.is_pub = item->as.struct_def.is_pub;            /* Propagate public visibil
             /* Check function body */
             check_statement(&tc, item->as.function.body);
 
+            /* A function that returns a value must not be able to run off its end */
+            if (item->as.function.return_type != TYPE_VOID && item->as.function.body &&
+                stmt_may_fall_through(item->as.function.body)) {
+                fprintf(stderr, "Error at line %d, column %d: Function '%s' can reach its end without returning a value\n",
+                        item->line, item->column, item->as.function.name);
+                tc.has_error = true;
+            }
+
             /* Check for unused variables before leaving scope */
             check_unused_variables(&tc, saved_symbol_count);
 
@@ -6264,6 +6298,14 @@ sdef.is_pub = item->as.struct_def.is_pub;            /* Propagate public visibil
 
             /* Check function body */
             check_statement(&tc, item->as.function.body);
+
+            /* A function that returns a value must not be able to run off its end */
+            if (item->as.function.return_type != TYPE_VOID && item->as.function.body &&
+                stmt_may_fall_through(item->as.function.body)) {
+                fprintf(stderr, "Error at line %d, column %d: Function '%s' can reach its end without returning a value\n",
+                        item->line, item->column, item->as.function.name);
+                tc.has_error = true;
+            }
 
             /* Check for unused variables before leaving scope */
             check_unused_variables(&tc, saved_symbol_count);
